@@ -652,6 +652,66 @@ def case_vindex(ctx, inp):
         ctx.branch("vindex-nd-points")
 
 
+def case_exotic(ctx, inp):
+    """Index elements of unusual but valid types: NumPy integer scalars (signed/unsigned), integer-valued floats,
+    0-d arrays, lists of NumPy ints, small-dtype / unsigned index arrays (NumPy and dask), Python bool lists,
+    0-d dask integer arrays, dask indexers in vindex."""
+    import numpy as np
+    import dask.array as da
+    n, lengths, kind, v = inp["n"], tuple(inp["lengths"]), inp["kind"], inp["v"]
+    x = np.arange(n * 2).reshape(n, 2) * 3 + 1
+    d = da.from_array(x, chunks=(lengths, (1, 1)))
+    np_index = None
+    if kind == "npint":
+        idx = np.dtype(inp["dtype"]).type(v)
+    elif kind == "float":
+        idx = float(v)
+        np_index = int(v)
+    elif kind == "zerod":
+        idx = np.array(v)
+    elif kind == "list-npint":
+        idx = [np.int64(i) for i in v]
+    elif kind == "array-dtype":
+        idx = np.array(v, dtype=inp["dtype"])
+    elif kind == "da-array-dtype":
+        idx = da.from_array(np.array(v, dtype=inp["dtype"]), chunks=max(1, len(v) // 2))
+        np_index = np.array(v, dtype=inp["dtype"])
+    elif kind == "boollist":
+        idx = [bool(b) for b in v]
+    elif kind == "da-zerod":
+        idx = da.from_array(np.array(v))
+        np_index = int(v)
+    elif kind == "vindex-da":
+        arr = np.array(v)
+        exp = x[:, 0][arr]
+        d1 = da.from_array(x[:, 0].copy(), chunks=n)
+        try:
+            r = d1.vindex[da.from_array(arr, chunks=max(1, len(v) // 2))]
+            got = np.asarray(r.compute(scheduler="sync"))
+        except Exception as e:
+            ctx.fail("x.vindex[dask indexer] raised " + type(e).__name__, observed=repr(e)[:200])
+            return
+        if got.shape != exp.shape or (got != exp).any():
+            ctx.fail("x.vindex[dask indexer] differs from NumPy", observed=got.tolist(), expected=exp.tolist())
+        ctx.branch("exotic-vindex-da")
+        return
+    else:
+        raise AssertionError(kind)
+    exp = x[idx if np_index is None else np_index]
+    try:
+        r = d[idx]
+        got = np.asarray(r.compute(scheduler="sync"))
+    except Exception as e:
+        ctx.fail("x[%s index] raised %s where NumPy succeeds" % (kind, type(e).__name__), observed=repr(e)[:200])
+        return
+    if got.shape != exp.shape or (got != exp).any():
+        ctx.fail("x[%s index] differs from NumPy" % kind, observed=got.tolist(), expected=exp.tolist())
+        return
+    if not any(c != c for ch in r.chunks for c in ch) and tuple(r.shape) != exp.shape:
+        ctx.fail("x[%s index]: lazy shape differs" % kind, observed=list(r.shape), expected=list(exp.shape))
+    ctx.branch("exotic-" + kind)
+
+
 def case_maskfull(ctx, inp):
     """x[mask] with a boolean mask of x's full shape (NumPy or dask, possibly chunked differently): the selected
     elements in C order; the lazy length is unknown (nan) unless the mask is 1-d NumPy."""
@@ -733,7 +793,7 @@ def case_blocks(ctx, inp):
     ctx.branch("blocks")
 
 
-CASES = {"maskfull": case_maskfull, "normidx": case_normidx, "take": case_take, "pyslice": case_pyslice, "norm": case_norm, "slice1d": case_slice1d, "slice1dint": case_slice1dint,
+CASES = {"exotic": case_exotic, "maskfull": case_maskfull, "normidx": case_normidx, "take": case_take, "pyslice": case_pyslice, "norm": case_norm, "slice1d": case_slice1d, "slice1dint": case_slice1dint,
          "api1d": case_api1d, "apind": case_apind, "vindex": case_vindex, "blocks": case_blocks}
 
 
@@ -903,6 +963,30 @@ def generate(ctx):
         pts = [rng.randrange(-n, n) for _ in range(rng.choice([5, 300]))]
         yield "vindex", {"shape": [n, 2], "chunks": [[c, n - c], [1, 1]], "index": [("array", pts), ("slice", [None, None, None])],
                          "ashapes": [[len(pts)]]}
+    # (2e) unusual but valid index element types
+    for _ in range(ctx.n(70, 700)):
+        n = rng.randint(1, 7)
+        lengths = list(random_chunks(rng, n))
+        kind = rng.choice(["npint", "float", "zerod", "list-npint", "array-dtype", "da-array-dtype", "boollist", "da-zerod",
+                           "vindex-da"])
+        inp = {"n": n, "lengths": lengths, "kind": kind}
+        if kind == "npint":
+            dt = rng.choice(["int8", "int32", "int64", "uint8", "uint32"])
+            inp["dtype"] = dt
+            inp["v"] = rng.randrange(0, n) if dt.startswith("u") else rng.randrange(-n, n)
+        elif kind in ("float", "zerod", "da-zerod"):
+            inp["v"] = rng.randrange(-n, n)
+        elif kind == "list-npint":
+            inp["v"] = [rng.randrange(-n, n) for _ in range(rng.randint(1, n + 2))]
+        elif kind in ("array-dtype", "da-array-dtype"):
+            dt = rng.choice(["int8", "int16", "uint8", "uint16", "uint64", "int64"])
+            inp["dtype"] = dt
+            inp["v"] = [rng.randrange(0, n) if dt.startswith("u") else rng.randrange(-n, n) for _ in range(rng.randint(1, n + 2))]
+        elif kind == "boollist":
+            inp["v"] = [rng.random() < 0.5 for _ in range(n)]
+        else:
+            inp["v"] = [rng.randrange(-n, n) for _ in range(rng.randint(1, n + 2))]
+        yield "exotic", inp
     # (3) API level, one axis
     for n in range(0, 7):
         for lengths in compositions(n):
